@@ -55,11 +55,13 @@ CLAIMS = {
              "bounded stand-ins, not proof.",
         design='5/C13'),
     'C04': dict(
-        text="Proof: contracts on InnerEnv.reset/step/state/observation (executed on a GridWorld whose functional_* methods are "
-             "opaque stubs with a ghost call trace) and on OuterEnv.reset/step/state/observation: state replaced through the "
-             "functional interface, memoised observation invalidated on reset/step, computed at most once from the current "
-             "state, RuntimeError before the first reset, outer env = representation.convert of the inner state/observation. "
-             "The trajectory-equality claim follows by induction over the history from these per-call contracts (stated, not mechanised).",
+        text="Proof: lemmas over short histories of public calls on InnerEnv / OuterEnv objects built by their real constructors "
+             "(the GridWorld functional_* methods are opaque stubs with a ghost call trace; no private attribute is named): "
+             "state replaced through the functional interface, observation computed on demand at most once per state from the "
+             "current state and invalidated by reset/step, a read before an operation never changes a read after it, "
+             "RuntimeError before the first reset with nothing computed, outer env = representation.convert of the inner "
+             "state/observation. The classes have three modes (unusable, state only, state + memoised observation), all reached "
+             "by the histories checked; the trajectory-equality claim follows by induction over longer histories (stated, not mechanised).",
         design='5/C04'),
     'C05': dict(
         text="Proof: cell-exact postcondition of from_visibility for an arbitrary (uninterpreted) visibility function, any view "
